@@ -380,7 +380,10 @@ pub fn large_family() -> Vec<(Facts, String)> {
             out.push(mk(&edges, n, reversed, format!("chain of {n} terms{tag}")));
         }
         // fan-in: one term with m direct parents, all children of HP:118
-        for m in [29usize, 30, 31, 32, 40] {
+        for m in [29usize, 30, 31, 32, 40, 300] {
+            if m == 300 && reversed {
+                continue; // one direction is enough for the 8-bit boundary (255/256 parents, children, terms of a record)
+            }
             let mut edges = vec![(1, 0)];
             for k in 0..m {
                 edges.push((2 + k, 1));
